@@ -668,6 +668,10 @@ func parseExpr(fset *token.FileSet, n ast.Node, s string) *jExpr {
 		k, _ := strconv.Atoi(m[1])
 		return &jExpr{K: "mul", N: k, A: parseExpr(fset, n, m[2])}
 	}
+	if m := regexp.MustCompile(`^(\d+)\*(len\(c\.\w+\))$`).FindStringSubmatch(s); m != nil {
+		k, _ := strconv.Atoi(m[1])
+		return &jExpr{K: "mul", N: k, A: parseExpr(fset, n, m[2])}
+	}
 	fail(fset, n, "integer expression not understood: %s", s)
 	return nil
 }
